@@ -88,6 +88,22 @@ Record prims := mkPrims {
   p_b64dec : string -> option bytes             (* BASE64_ENGINE.decode *)
 }.
 
+(** The comparison that decides a login (config_file.rs:236 `encoded_hash != user_password_hash`): equality of two
+    TEXTS - the 64 lower-case hexadecimal characters of hex::encode over the 32 bytes of the second scrypt pass, and
+    the `password_hash` string of the user's entry exactly as it stands in the configuration (no decoding, no
+    trimming, no change of letter case: config.rs reads it as a String). [login_ok] is the password check of the
+    config-file provider in terms of that comparison: [hash c name pw] is the text computed from the strong salt
+    of entry [c], the normalised name and the normalised password; [stored c] is the configured text of entry [c].
+    The field [p_pw_ok] of [prims] is meant to be [login_ok hash stored] for the hash function and the configured
+    texts at hand (AuthToy.v instantiates it that way). *)
+Definition hash_matches (computed configured : string) : bool := String.eqb computed configured.
+Definition login_ok (hash : N -> string -> string -> string) (stored : N -> option string)
+                    (c : N) (name pw : string) : bool :=
+  match stored c with
+  | Some configured => hash_matches (hash c name pw) configured
+  | None => false
+  end.
+
 (** ** A running daemon *)
 Record inst := mkInst {
   i_cfg : config;
